@@ -395,7 +395,7 @@ end
 
 end Objects
 
-/-! ## `RecursiveRayTracer.recurse` without point lights (raytrace.go) and `RayCaster` (raycast.go) -/
+/-! ## `RecursiveRayTracer.recurse` (raytrace.go), `RayCaster` (raycast.go), `PointLight` (light.go) -/
 
 /-- A surface point's material, as far as `recurse` looks at it. -/
 structure Mat (α σ : Type) where
@@ -408,15 +408,40 @@ structure Mat (α σ : Type) where
   /-- `sourceDensity(normal, source, dest)`. -/
   density : V3 α → V3 α → V3 α → α
 
+/-- `render3d.PointLight`. -/
+structure PointLight (α : Type) where
+  origin : V3 α
+  color : V3 α
+  quadDropoff : Bool
+
 section Recurse
-variable {α σ : Type} [Add α] [Sub α] [Mul α] [Div α] [Neg α] [OfNat α 0] [OfNat α 1] [OfNat α 3]
+variable {α σ : Type} [Add α] [Sub α] [Mul α] [Div α] [Neg α] [OfNat α 0] [OfNat α 1] [OfNat α 3] [OfNat α 4]
   [LT α] [DecidableLT α]
 
-/-- `recurse` with `Lights == nil`.  `fuel = MaxDepth - depth`; `first` is `depth == 0`.
+/-- `PointLight.ShadeCollision(normal, pointToLight)`: `0.25 * math.Max(0, normal·l̂)` times the
+(optionally inverse-square attenuated) light colour. -/
+def PointLight.shade (sqrt : α → α) (l : PointLight α) (normal p2l : V3 α) : V3 α :=
+  let dist := p2l.norm sqrt
+  let color := if l.quadDropoff then l.color.scale (1 / (dist * dist)) else l.color
+  let d := normal.dot (p2l.scale (1 / dist))
+  color.scale (1 / 4 * (if 0 < d then d else 0))
+
+/-- The `for _, l := range r.Lights` loop of `recurse` (shadow test included). -/
+def directLight (scene : Ray α → Option (Hit α × Mat α σ)) (sqrt : α → α) (eps : α)
+    (lights : List (PointLight α)) (point normal dest : V3 α) (m : Mat α σ) (color : V3 α) : V3 α :=
+  lights.foldl (fun color l =>
+    let ld := l.origin.sub point
+    let shadowRay : Ray α := ⟨point.add ((ld.normalize sqrt).scale eps), ld⟩
+    let lit := color.add ((l.shade sqrt normal ld).mul (m.bsdf normal ((point.sub l.origin).normalize sqrt) dest))
+    match scene shadowRay with
+    | some (sc, _) => if sc.scale < 1 then color else lit
+    | none => lit) color
+
+/-- `RecursiveRayTracer.recurse`.  `fuel = MaxDepth - depth`; `first` is `depth == 0`.
 `scene r` is `obj.Cast(r)` together with the material found there; `abs` is `math.Abs`;
 `eps` is the bounce offset. -/
-def recurse (scene : Ray α → Option (Hit α × Mat α σ)) (sqrt abs : α → α) (cutoff eps : α) :
-    Nat → Bool → σ → Ray α → V3 α → V3 α × σ
+def recurse (scene : Ray α → Option (Hit α × Mat α σ)) (sqrt abs : α → α) (cutoff eps : α)
+    (lights : List (PointLight α)) : Nat → Bool → σ → Ray α → V3 α → V3 α × σ
   | fuel, first, g, ray, scale =>
     if (scale.x + scale.y + scale.z) / 3 < cutoff then (V3.zero, g)
     else
@@ -426,6 +451,7 @@ def recurse (scene : Ray α → Option (Hit α × Mat α σ)) (sqrt abs : α →
         let point := ray.origin.add (ray.dir.scale c.scale)
         let dest := (ray.dir.normalize sqrt).scale (-1)
         let color := if first then m.emission.add m.ambient else m.emission
+        let color := directLight scene sqrt eps lights point c.normal dest m color
         match fuel with
         | 0 => (color, g)
         | fuel + 1 =>
@@ -434,14 +460,19 @@ def recurse (scene : Ray α → Option (Hit α × Mat α σ)) (sqrt abs : α →
           let mask := (m.bsdf c.normal src dest).scale weight
           let dir := src.scale (-1)
           let next : Ray α := ⟨point.add ((dir.normalize sqrt).scale eps), dir⟩
-          let (nc, g) := recurse scene sqrt abs cutoff eps fuel false g next (scale.mul mask)
+          let (nc, g) := recurse scene sqrt abs cutoff eps lights fuel false g next (scale.mul mask)
           (color.add (nc.mul mask), g)
 
-/-- One pixel of `RayCaster.Render` with `Lights == nil` (`img.Data[idx]` keeps its zero value on a miss). -/
-def rayCasterPixel (scene : Ray α → Option (Hit α × Mat α σ)) (ray : Ray α) : V3 α :=
+/-- One pixel of `RayCaster.Render` (`img.Data[idx]` keeps its zero value on a miss). -/
+def rayCasterPixel (scene : Ray α → Option (Hit α × Mat α σ)) (sqrt : α → α)
+    (lights : List (PointLight α)) (ray : Ray α) : V3 α :=
   match scene ray with
   | none => V3.zero
-  | some (_, m) => m.ambient.add m.emission
+  | some (c, m) =>
+    let point := ray.origin.add (ray.dir.scale c.scale)
+    lights.foldl (fun color l =>
+      let brdf := m.bsdf c.normal ((point.sub l.origin).normalize sqrt) ((ray.origin.sub point).normalize sqrt)
+      color.add ((l.shade sqrt c.normal (l.origin.sub point)).mul brdf)) (m.ambient.add m.emission)
 
 end Recurse
 
